@@ -9,12 +9,11 @@ Local Open Scope N_scope.
 (* ------------------------------------------------------------------------------------------ *)
 (* Newick                                                                                      *)
 
-(* Round trip, export without length / attributes and with intermediate node names (any separators,
-   any attribute prefix, exported from the root or from an inner node).
+(* Round trip, export without length / attributes and with intermediate node names, for ANY length_sep /
+   attr_sep / attribute prefix (they are not used then), exported from the root or from an inner node.
    Guard = newick_alphabet: every name non-empty and without the quote character, sibling names distinct.
-   Named _partial because lengths, attributes and intermediate_node_name=False are not covered by this
-   theorem (they are covered by the correspondence check + the same predicates). *)
-Theorem C06_newick_roundtrip_partial :
+   (The general theorem, with lengths, attributes and suppressed names, is C06_newick_roundtrip below.) *)
+Theorem C06_newick_roundtrip_anysep :
   forall lsep pf asep dflt isroot t,
     newick_alphabet (NwOpt true [] [] pf dflt) isroot t = true ->
     exists s back,
@@ -29,7 +28,7 @@ Proof.
   - unfold prop_newick_back. cbn [o_inter]. fold (opt_plain pf dflt).
     rewrite nw_view_plain. apply tree_eqb_refl.
 Qed.
-Print Assumptions C06_newick_roundtrip_partial.
+Print Assumptions C06_newick_roundtrip_anysep.
 
 (* The equality is literal: the rebuilt tree is the input with tags and attributes erased. *)
 Theorem C06_newick_roundtrip_exact :
@@ -45,7 +44,7 @@ Print Assumptions C06_newick_roundtrip_exact.
 
 (* Every node exactly once, nested as the tree is, exact (quoted) name: the exported text, read by the
    reference grammar of the spec, denotes the tree (same fragment and guard as above). *)
-Theorem C06_newick_nodes_once :
+Theorem C06_newick_nodes_once_anysep :
   forall lsep pf asep dflt isroot t,
     newick_alphabet (NwOpt true [] [] pf dflt) isroot t = true ->
     exists s,
@@ -58,7 +57,60 @@ Proof.
   unfold prop_newick_export. rewrite (newick_read_plain _ pf t Hok).
   fold (opt_plain pf dflt). rewrite nw_view_plain. apply tree_eqb_refl.
 Qed.
+Print Assumptions C06_newick_nodes_once_anysep.
+
+(* ROUND TRIP, all export options the importer can read back: any length attribute, any list of requested
+   attributes, any prefix, exported from the root or from an inner node, intermediate node names written
+   or suppressed, the default ':' separators (the only ones newick_to_tree knows).
+   Guard = newick_alphabet (Spec/PC06Text.v): names / keys / string values without the quote character;
+   keys distinct, not `name`, not starting with `_`, different from the length attribute; requested
+   attributes absent, None or a non-empty string; lengths positive integers on every node but the real
+   root; sibling names distinct; no name of the form nodeN when intermediate names are suppressed.
+   Conclusion: the export succeeds, the import of that text succeeds, and the rebuilt tree equals the
+   original in names, shape, sibling order and exported attributes (prop_newick_back: tree_eqb after
+   sorting attributes by key; invented names of internal nodes are not compared when they were
+   suppressed). *)
+Theorem C06_newick_roundtrip :
+  forall inter len keys pf isroot t,
+    newick_alphabet (NwOpt inter len keys pf true) isroot t = true ->
+    exists s back,
+      nw_write (NwCfg inter len [58] keys pf [58]) isroot t = Ret s
+      /\ nw_parse (la_of (NwOpt inter len keys pf true)) pf s = Ret back
+      /\ prop_newick_back (NwOpt inter len keys pf true) isroot t back = true.
+Proof. exact newick_roundtrip_gen. Qed.
+Print Assumptions C06_newick_roundtrip.
+
+(* EXPORT CLAUSE, same options and guard: the text, read by the reference grammar of the spec (recursive
+   descent, Spec/PC06Text.v), denotes the tree: every node exactly once, nested as the tree is, exact
+   name (blank where suppressed), the length and exactly the requested attributes the node has. *)
+Theorem C06_newick_nodes_once :
+  forall inter len keys pf isroot t,
+    newick_alphabet (NwOpt inter len keys pf true) isroot t = true ->
+    exists s,
+      nw_write (NwCfg inter len [58] keys pf [58]) isroot t = Ret s
+      /\ prop_newick_export (NwOpt inter len keys pf true) isroot t s = true.
+Proof. exact newick_export_gen. Qed.
 Print Assumptions C06_newick_nodes_once.
+
+(* non-vacuity of the guard with a length and two attributes (one of them with a special key) *)
+Definition ex_attr_tree : tree :=
+  T (Some 0%nat) [97] [([65], VInt 90); ([107], VStr [104; 117]); ([120; 58; 121], VStr [40; 49; 41])]
+    [ T (Some 1%nat) [98; 32; 99] [([65], VInt 65); ([107], VStr [118])]
+        [ T (Some 2%nat) [100] [([65], VInt 40); ([107], VNone); ([120; 58; 121], VStr [61])] [] ];
+      T (Some 3%nat) [101] [([65], VInt 7)] [] ].
+Example C06_newick_attr_guard_satisfiable :
+  newick_alphabet (NwOpt true [65] [[107]; [120; 58; 121]] [38; 38; 78; 72; 88; 58] true) true ex_attr_tree = true
+  /\ exists s, nw_write (NwCfg true [65] [58] [[107]; [120; 58; 121]] [38; 38; 78; 72; 88; 58] [58]) true ex_attr_tree = Ret s
+               /\ length s = 71%nat.
+Proof. split; [vm_compute; reflexivity|]. eexists. split; vm_compute; reflexivity. Qed.
+
+(* non-vacuity with suppressed intermediate names: the importer invents node0, node1, ... *)
+Example C06_newick_nointer_guard_satisfiable :
+  newick_alphabet (NwOpt false [65] [[107]] [] true) true ex_attr_tree = true
+  /\ exists s back, nw_write (NwCfg false [65] [58] [[107]] [] [58]) true ex_attr_tree = Ret s
+                    /\ nw_parse [65] [] s = Ret back
+                    /\ tname back = [110; 111; 100; 101; 49].
+Proof. split; [vm_compute; reflexivity|]. eexists. eexists. repeat split; vm_compute; reflexivity. Qed.
 
 (* non-vacuity: a tree with fan-out 3, depth 3, names containing every special character *)
 Definition ex_tree : tree :=
